@@ -13,6 +13,16 @@ static std::vector<std::array<T, 9>> values() {
     for (int i = 0; i < 9; i++) a[i] = (T)pool[(i + 9 * r) % 18];
     out.push_back(a);
   }
+  // all zeros of both signs (a direction built from it is the zero direction), and values at and beyond the finite range
+  // of the narrower types (IEEE-754 conversion: overflow to infinity; infinities stay infinities)
+  {
+    std::array<T, 9> z;
+    for (int i = 0; i < 9; i++) z[i] = (i % 2) ? -(T)0 : (T)0;
+    out.push_back(z);
+    const T inf = std::numeric_limits<T>::infinity(), mx = std::numeric_limits<T>::max();
+    std::array<T, 9> e = {inf, -inf, mx, -mx, (T)1e39L, (T)-1e39L, (T)3.5e38L, std::numeric_limits<T>::min(), std::numeric_limits<T>::denorm_min()};
+    out.push_back(e);
+  }
   return out;
 }
 template <class QA, class QB, class = void>
@@ -40,6 +50,12 @@ void pair(const char* name) {
       return vf::make<Q2>(c);
   };
   for (const auto& vals : values<T1>()) {
+    if constexpr (dir) {
+      // a direction is built by normalising: infinite and overflowing components are outside its domain
+      bool fin = true;
+      for (int i = 0; i < N; i++) fin = fin && std::isfinite(vals[i]) && std::fabs((long double)vals[i]) < 1e18L;
+      if (!fin) continue;
+    }
     const Q1 src = make1(vals.data());
     T1 s[9];
     vf::comps(src, s);
